@@ -31,8 +31,14 @@ HERE = os.path.dirname(os.path.abspath(__file__))
 APXREAD = os.path.join(HERE, "target", "debug", "apxread")
 SRC = "/repo/src/io/aspartix_reader.rs"
 
-WS = [9, 10, 11, 12, 13, 32]          # ASCII part of \s (Unicode White_Space)
-ALPHABET = [c for c in range(0, 128) if c != 10]  # a line never contains '\n'
+# Four representative non-ASCII code points stand for the Unicode classes the regex crate distinguishes:
+E_ACUTE = 0xE9      # a letter: in \w, NOT in [[:alpha:]] (ASCII-only), not a digit, not a space
+ARABIC_3 = 0x663    # a decimal digit: in \d and \w
+NBSP = 0xA0         # White_Space: in \s (and removed by str::trim)
+EURO = 0x20AC       # a symbol: in none of the classes
+NON_ASCII = [E_ACUTE, ARABIC_3, NBSP, EURO]
+WS = [9, 10, 11, 12, 13, 32, NBSP]     # \s = Unicode White_Space, restricted to the alphabet
+ALPHABET = [c for c in range(0, 128) if c != 10] + NON_ASCII  # a line never contains '\n'
 
 
 class Untranslatable(Exception):
@@ -90,8 +96,10 @@ def chr_lit(c):
     return z3.StringVal(chr(c))
 
 
-ALPHA = list(range(65, 91)) + list(range(97, 123))
-DIGIT = list(range(48, 58))
+ALPHA = list(range(65, 91)) + list(range(97, 123))          # [[:alpha:]] is ASCII-only in the regex crate
+DIGIT = list(range(48, 58)) + [ARABIC_3]                     # \d is Unicode-aware
+WORD = ALPHA + DIGIT + [95, E_ACUTE]                         # \w is Unicode-aware
+ASCII_DIGIT = list(range(48, 58))
 
 
 def parse(pattern):
@@ -127,11 +135,11 @@ def parse(pattern):
                 if name == "alpha":
                     codes |= set(ALPHA)
                 elif name == "digit":
-                    codes |= set(DIGIT)
+                    codes |= set(ASCII_DIGIT)
                 elif name == "alnum":
-                    codes |= set(ALPHA + DIGIT)
+                    codes |= set(ALPHA + ASCII_DIGIT)
                 elif name == "space":
-                    codes |= set(WS)
+                    codes |= set([9, 10, 11, 12, 13, 32])
                 else:
                     raise Untranslatable("class [:%s:]" % name)
                 pos += len(m.group(0))
@@ -145,7 +153,7 @@ def parse(pattern):
                 elif e == "s":
                     codes |= set(WS)
                 elif e == "w":
-                    codes |= set(ALPHA + DIGIT + [95])
+                    codes |= set(WORD)
                 elif e in "()[].\\,-^$*+?{}|":
                     codes.add(ord(e))
                 else:
@@ -192,7 +200,7 @@ def parse(pattern):
             if e == "d":
                 return chars_re(DIGIT)
             if e == "w":
-                return chars_re(ALPHA + DIGIT + [95])
+                return chars_re(WORD)
             if e in "()[].\\,-^$*+?{}|":
                 return z3.Re(chr_lit(ord(e)))
             raise Untranslatable("escape \\%s" % e)
@@ -251,6 +259,8 @@ def parse(pattern):
 
 def grammar():
     ws = z3.Star(chars_re(WS))
+    # identifiers: ASCII letters / underscore, then ASCII letters, underscore and decimal digits (the reader's \d is
+    # Unicode-aware, which the grammar mirrors so that the check is about the structure, not about digit scripts)
     ident = z3.Concat(chars_re(ALPHA + [95]), z3.Star(chars_re(ALPHA + DIGIT + [95])))
 
     def lit(s):
@@ -298,7 +308,7 @@ def run(tier="quick", bound=None):
         entry = {"query": tag, "what": what, "result": str(r), "solver_s": round(dt, 3)}
         if r == z3.sat:
             line = sol.model().eval(s, model_completion=True).as_string()
-            line = bytes(line, "utf-8").decode("unicode_escape") if "\\u{" not in line else re.sub(r"\\u\{([0-9a-fA-F]+)\}", lambda m: chr(int(m.group(1), 16)), line)
+            line = re.sub(r"\\u\{([0-9a-fA-F]+)\}", lambda m: chr(int(m.group(1), 16)), line)
             entry["line"] = line
             res["violations"].append({"query": tag, "what": what, "line": line})
         elif r == z3.unknown:
@@ -313,8 +323,8 @@ def replay(v):
     line = v["line"]
     kind = v["query"]
     # a declared universe so that att lines naming a, b, ... can be read
-    prefix = "" if kind.startswith("A") else "".join("arg(%s).\n" % n for n in re.findall(r"[_A-Za-z][_A-Za-z0-9]*", line) if n not in ("att", "arg"))
-    r = subprocess.run([APXREAD], input=(prefix + line + "\n").encode("latin-1"), capture_output=True, timeout=60)
+    prefix = "" if kind.startswith("A") else "".join("arg(%s).\n" % n for n in re.findall(r"[_A-Za-z\u00e9][_A-Za-z0-9\u00e9\u0663]*", line) if n not in ("att", "arg"))
+    r = subprocess.run([APXREAD], input=(prefix + line + "\n").encode("utf-8"), capture_output=True, timeout=60)
     out = r.stdout.decode("utf-8", "replace").strip()
     accepted = out.startswith("OK")
     if kind in ("A1", "B1", "X"):
